@@ -209,8 +209,8 @@ theorem C06_BatchResponse_fromJson_total (reg : ErrRegistry) (cls : ErrClass) (j
         · simp
       · simp
   · rename_i xs
-    rcases mapPy_total (Response.fromJson reg .jsonRpcError) .deserialization
-      (C06_Response_fromJson_total reg .jsonRpcError) xs with ⟨rs, h⟩ | h <;> rw [h] <;> simp
+    rcases mapPy_total (Response.fromJson reg cls) .deserialization
+      (C06_Response_fromJson_total reg cls) xs with ⟨rs, h⟩ | h <;> rw [h] <;> simp
     unfold BatchResponse.construct BatchResponse.extend
     rcases addIds_total true [] (rs.map (·.id)) with ⟨r, h2⟩ | h2 <;> simp [h2]
   · simp
